@@ -86,17 +86,22 @@ ProcWalk(c) == /\ Kind(c) = "proc" /\ pc[c] = "start" /\ lock = 0
                /\ lock' = c /\ pc' = [pc EXCEPT ![c] = "write"] /\ Step(c, "process-before-write")
                /\ UNCHANGED <<mem, store, healthy, res, toggles>>
 ProcWrite(c) == /\ Kind(c) = "proc" /\ pc[c] = "write" /\ lock = c
-                /\ LET m == Mid(c) IN
-                   IF mem[m] = Absent THEN UNCHANGED <<mem, store>> /\ res' = [res EXCEPT ![c] = "nomachine"]
+                /\ LET ts == IF Mid(c) = "*" THEN {m \in Mids \ {"*"} : mem[m] # Absent} ELSE {Mid(c)} \cap {m \in Mids : mem[m] # Absent} IN
+                   IF ts = {} THEN UNCHANGED <<mem, store>> /\ res' = [res EXCEPT ![c] = "nomachine"]
                    ELSE IF healthy
-                        THEN /\ mem' = [mem EXCEPT ![m] = Append(@, Ops[c][3])]
-                             /\ store' = [store EXCEPT ![m] = Append(mem[m], Ops[c][3])]
+                        THEN /\ mem' = [m \in Mids |-> IF m \in ts THEN Append(mem[m], Ops[c][3]) ELSE mem[m]]
+                             /\ store' = [m \in Mids |-> IF m \in ts THEN Append(mem[m], Ops[c][3]) ELSE store[m]]
                              /\ res' = [res EXCEPT ![c] = "ok"]
                         ELSE UNCHANGED <<mem, store>> /\ res' = [res EXCEPT ![c] = "error"]
                 /\ lock' = 0 /\ pc' = [pc EXCEPT ![c] = "done"] /\ Step(c, "ret")
                 /\ UNCHANGED <<healthy, toggles>>
 
-Next == Toggle \/ \E c \in Clients :
+\* ---- read-crew: a copy of memory under the read lock (excluded by a Process in its critical section)
+ReadCopy(c) == /\ Kind(c) = "read" /\ pc[c] = "start" /\ lock = 0
+               /\ res' = [res EXCEPT ![c] = "ok"] /\ pc' = [pc EXCEPT ![c] = "done"] /\ Step(c, "ret")
+               /\ UNCHANGED <<mem, store, healthy, lock, toggles>>
+
+Next == Toggle \/ \E c \in Clients : ReadCopy(c) \/
           AddMem(c) \/ AddWrite(c) \/ AddLocked(c) \/ RemMem(c) \/ RemWrite(c) \/ RemLocked(c) \/ ProcWalk(c) \/ ProcWrite(c)
 Spec == Init /\ [][Next]_vars
 
